@@ -10,14 +10,34 @@ T  harness/parmap_driver.cpp runs the real Parmap<int*> / Parmap<int> (vector si
    repeated applies on the same object, plain / delayed / stealing functions); the merged per-thread logs are
    validated by TLC against ParmapAbs (spec/lib/Parmap_trace.tla), including the shared words read at each return.
 
-Mutations of /repo/src/xbt/parmap.hpp tried with tools/mutbuild.sh (VERIF_REPO/VERIF_BUILD), quick tier:
-  see the list at the end of this docstring (filled in from the experiments).
+Mutations of src/xbt/parmap.hpp tried in a scratch worktree (tools/mutbuild.sh, VERIF_REPO / VERIF_BUILD), quick tier:
+  * FutexSynchro::worker_wait does not compare the round (`while (false && round != expected_round)`): CAUGHT (exit 1;
+    the workers run work() with no data: crash / wrong shared words at return, 8 scenarios reported)
+  * PosixSynchro::master_wait satisfied, and the master notified, one signal early (`thread_counter + 1 >= num_workers`):
+    CAUGHT (exit 1; the next master_signal races with the late worker and the parmap hangs: watchdog line `hang`,
+    confirmed by the re-runs)
+  * work(): `fetch_add` on common_index replaced by load + store: CAUGHT (exit 1; proc lines of elements already
+    processed in the apply, 5 scenarios confirmed by re-run)
+  The same three design errors seeded in the specification (constant Bug of Parmap.tla) are rejected by TLC in every run.
 """
 import json, os
 import vlib, drivers
 import lib2_common as L
 
 LEVEL = "model_checking"
+META = {"text": "TLC explores every interleaving of the algorithm of parmap.hpp (one TLA+ process per thread, one step per atomic "
+                "operation, futex / posix / busy_wait, plain and work-stealing use) up to 4 threads x 4 elements x 3 successive "
+                "applies and shows that it implements the abstract parallel map (every element exactly once per apply, return "
+                "only when all are processed and every worker has signalled), never deadlocks and always terminates under "
+                "fairness; the merged per-thread logs of the real Parmap<int*> / Parmap<int> (sizes 0..500, 1..16 threads, "
+                "3 modes, repeated applies) and the shared words read at each return are validated by TLC against the same "
+                "abstract specification.",
+        "note": "Trusted: TLC; sequentially consistent atomics and the documented semantics of futex / mutex / condition "
+                "variable in the model; the global atomic sequence counter that orders the log; the operating system "
+                "schedules the real threads, so the runs sample interleavings (exhaustiveness holds for the specification "
+                "only, within the stated bounds). Liveness in posix mode needs strongly fair mutex acquisition.",
+        "technique": "TLC model checking of Parmap.tla (refinement of ParmapAbs, invariants, deadlock, liveness; seeded design "
+                     "errors rejected) + TLC trace validation of the real Parmap's logs (Parmap_trace.tla)"}
 DRIVERS = {"parmap_driver": (["parmap_driver.cpp"], "s4u", ["-std=c++20"])}
 drivers.register(DRIVERS)
 
@@ -134,12 +154,13 @@ def scenarios(ctx):
         allsizes = list(range(0, 501))
         for m in MODES:
             for n in range(1, 17):
-                # every size 0..500 once per (mode, n), split over the variants, in random order, 25 applies per object
-                rng.shuffle(allsizes)
-                for j in range(0, 501, 25):
-                    sc.append((m, n, rng.choice([0, 1, 2, 3]), allsizes[j:j + 25]))
+                if n in (1, 2, 3, 4, 8, 16):
+                    # every size 0..500 once per (mode, n), split over the variants, in random order, 25 applies per object
+                    rng.shuffle(allsizes)
+                    for j in range(0, 501, 25):
+                        sc.append((m, n, rng.choice([0, 1, 2, 3]), allsizes[j:j + 25]))
                 for v in (0, 1, 2, 3):
-                    sc.append((m, n, v, gen_sizes(rng, n, 6)))
+                    sc.append((m, n, v, gen_sizes(rng, n, 8)))
     return sc
 
 
@@ -247,7 +268,7 @@ def run_traces(ctx):
 def run(ctx):
     ctx.cov["rule"] = ("cases = one apply() of the real Parmap, identified by (mode, threads, function variant, vector size, "
                        "rank of the apply on its object); objects = 3 modes x 1..16 threads x variants drawn from "
-                       "VERIF_SEED (thorough: every size 0..500 for every (mode, threads)); non-trivial = at least two "
+                       "VERIF_SEED (thorough: every size 0..500 for every mode and 1, 2, 3, 4, 8, 16 threads); non-trivial = at least two "
                        "threads processed elements in that apply; M = every interleaving of Parmap.tla for <= 4 threads "
                        "x <= 4 elements x 3 applies")
     run_mc(ctx)
